@@ -233,6 +233,27 @@ func (c *Ctx) classifyErr(p *errProducer) errVerdict {
 				}
 			case *ssa.Phi:
 				add(x)
+				// `err = step()` inside a loop, looked at only after the loop: the next
+				// iteration's result replaces this one unless the variable is known to be
+				// nil when the step runs
+				if l := loopWithHead(p.Fn, x.Block()); l != nil && l.Blocks[p.Instr.Block()] {
+					stillNil := guardedBy(p.Instr.Block(), func(cond ssa.Value, truth bool) bool {
+						m, isNil := errNilFact(cond, truth, x)
+						return m && isNil
+					})
+					testedInLoop := false
+					for _, r := range *x.Referrers() {
+						if bo, ok := r.(*ssa.BinOp); ok && l.Blocks[bo.Block()] && (isNilConst(bo.X) || isNilConst(bo.Y)) {
+							testedInLoop = true
+						}
+					}
+					if !stillNil && !testedInLoop {
+						problems = append(problems, "the error is kept in a variable that the next iteration of the loop overwrites before anybody looks at it: a failure followed by a successful iteration is lost")
+						if probPos == token.NoPos {
+							probPos = p.Instr.Pos()
+						}
+					}
+				}
 			case *ssa.MakeInterface, *ssa.ChangeInterface:
 				add(x.(ssa.Value))
 			case *ssa.TypeAssert:
@@ -781,4 +802,14 @@ func (c *Ctx) predicateMeansExitCode1(f *ssa.Function) bool {
 		}
 	}
 	return sawTrue
+}
+
+// loopWithHead returns the loop of f whose head is b.
+func loopWithHead(f *ssa.Function, b *ssa.BasicBlock) *loop {
+	for _, l := range loopsOf(f) {
+		if l.Head == b {
+			return l
+		}
+	}
+	return nil
 }
